@@ -9,7 +9,7 @@ use crate::c05::{enc, fe, fname, modulus, rand_vec};
 use crate::prio3::Inst;
 use crate::rec::{self, RecXof};
 use crate::util::{catch, hex, Out, Sm};
-use prio::codec::{Decode, Encode};
+use prio::codec::{Decode, Encode, ParameterizedDecode};
 use prio::dp::distributions::{DiscreteGaussian, DiscreteLaplace, PureDpDiscreteLaplace, ZCdpDiscreteGaussian};
 use prio::dp::{DifferentialPrivacyStrategy, PureDpBudget, Rational, ZCdpBudget};
 use prio::field::{Field128, Field64, FieldElementWithInteger, FieldPrio2, NttFriendlyFieldElement};
@@ -964,5 +964,16 @@ pub fn huge_instances(out: &mut Out) {
         let Ok(typ) = Histogram::<Field128, PS>::new(len, chunk) else { continue };
         let Ok(vdaf) = Prio3::<_, XofTurboShake128, 32>::new(2, 1, 3, typ) else { continue };
         probe(out, Want::NoPanic, || format!("Prio3Histogram(len={}, chunk={}).shard", len, chunk), || vdaf.shard(b"", &1, &[0; 16]).map(|_| ()));
+        // a hand-made leader share of exactly the right shape: verification must fail with an error too
+        let t = Histogram::<Field128, PS>::new(len, chunk).unwrap();
+        use prio::flp::Flp;
+        let share = Prio3InputShare::Leader {
+            measurement_share: vec![Field128::from(0); t.input_len()],
+            proofs_share: vec![Field128::from(1); t.proof_len()],
+            joint_rand_blind: Some(seed(&[1u8; 32])),
+        };
+        if let Ok(public) = Prio3PublicShare::<32>::get_decoded_with_param(&vdaf, &[7u8; 64]) {
+            probe(out, Want::NoPanic, || format!("Prio3Histogram(len={}, chunk={}).verify_init on a share of the right shape", len, chunk), || vdaf.verify_init(&[0; 32], b"", 0, &(), &[0; 16], &public, &share).map(|_| ()));
+        }
     }
 }
